@@ -322,6 +322,7 @@ func checkC06(c *Check) {
 	// the identifiers of a login leave in a response object that no other check can reach
 	responseFreshPerCheck(c, "C06.R3", R)
 	csprngBufferNotOverwritten(c, "C06.R1")
+	entropyAmountIsConstant(c, "C06.R1")
 	headersOwnBacking(c, "C06.R3", R)
 	if c.Tier == "thorough" && P.Whole {
 		// follow oauth2.GenerateVerifier into the dependency
@@ -565,4 +566,38 @@ func csprngBufferNotOverwritten(c *Check, rule string) {
 		}
 	}
 	c.Obl(n >= 1, rule, "csprng-fill-sites", "-", fmt.Sprintf("%d crypto/rand.Read site(s) in own code", n), "no crypto/rand.Read call found in own code (anchor lost)")
+}
+
+// entropyAmountIsConstant: the helper that draws from crypto/rand is asked for a constant number of characters,
+// at least 22 (≥ 128 bits over a 62-letter alphabet). A length computed at run time (64 minus the length of a
+// host name, a prefix, a configured value) silently shrinks the random part — down to nothing.
+func entropyAmountIsConstant(c *Check, rule string) {
+	P := c.P
+	n := 0
+	for _, helper := range P.Funcs {
+		if !isOwnPath(pkgPathOf(helper)) || len(callsTo(helper, "crypto/rand.Read")) == 0 {
+			continue
+		}
+		var sizeIdx []int
+		for i, p := range helper.Params {
+			if b, ok := p.Type().Underlying().(*types.Basic); ok && b.Info()&types.IsInteger != 0 {
+				sizeIdx = append(sizeIdx, i)
+			}
+		}
+		if len(sizeIdx) == 0 {
+			continue
+		}
+		for _, cs := range callsToFn2(P, helper) {
+			for _, i := range sizeIdx {
+				if i >= len(cs.Common().Args) {
+					continue
+				}
+				n++
+				k, isK := constInt(cs.Common().Args[i])
+				c.Obl(isK && k >= 22, rule, "entropy-amount/"+nthCallKey(cs), P.Pos(cs.Pos()), fmt.Sprintf("%d random characters requested (constant)", k),
+					"the number of random characters requested from "+fnKey(helper)+" is "+descDepth(cs.Common().Args[i], 3)+", not a constant of at least 22: the random part of an identifier can shrink to nothing")
+			}
+		}
+	}
+	c.Obl(n >= 3, rule, "entropy-amounts", "-", fmt.Sprintf("%d requests for random characters, all of constant size", n), "no sized request to the entropy helper found (anchor lost)")
 }
